@@ -57,9 +57,12 @@ def _one(prop, item):
             if item["name"].startswith("seeded/") else [item["patch"]]
         applied = False
         for pth in cands:
-            r = common.sh(["git", "apply", pth], cwd=repo)
-            if r.returncode == 0:
-                applied = True
+            for extra in ([], ["-C1"]):
+                r = common.sh(["git", "apply"] + extra + [pth], cwd=repo)
+                if r.returncode == 0:
+                    applied = True
+                    break
+            if applied:
                 break
         if not applied:
             return dict(item, outcome="not-applicable", detail="patch does not apply to the current tree")
